@@ -127,7 +127,7 @@ FAST = {"TimeSeriesForestClassifier": {"n_estimators": 3}, "TimeSeriesForestRegr
 OPTION_POOL = {"strategy": ["mean", "drift", "update"], "aggfunc": ["median", "min"], "model": ["multiplicative"], "method": ["mean", "linear", "nearest", "drift"],
                "trend": ["add"], "with_intercept": [False], "deseasonalize": [False], "return_nan": [False], "fill_value": [0.0], "refit": [False], "sp": [4], "window_length": [4],
                "return_numpy": [False], "numerosity_reduction": [False], "norm": [True], "igb": [True], "anova": [True], "bigrams": [True], "save_words": [True],
-               "remember_data": [False], "passthrough": [True], "acf_lag": [5], "min_interval": [4], "n_intervals": [3, "log", "sqrt"]}
+               "remember_data": [False], "passthrough": [True], "n_jobs": [1], "acf_lag": [5], "min_interval": [4], "n_intervals": [3, "log", "sqrt"]}
 
 
 def variants(name):
